@@ -395,14 +395,14 @@ func (p *Program) runPath(sv *solver, pkgPath string, fn *ssa.Function, prefix [
 			case runtime.Error:
 				if _, isTarget := r.(runtimeErrorText); isTarget || isTargetRuntimeError(r) {
 					pr.Status = "ok"
-					i.recordViolation("panic", "", "uncaught runtime error: "+r.Error(), false)
+					i.recordViolation("panic", "", "uncaught runtime error: "+r.Error()+" ["+i.lastFault+"]", false)
 				} else {
 					pr.Status = "unsupported"
-					pr.Msg = "interpreter fault: " + r.Error() + " @ " + shortStack()
+					pr.Msg = "interpreter fault: " + r.Error() + " @ " + shortStack() + " [" + i.lastFault + "]"
 				}
 			default:
 				pr.Status = "unsupported"
-				pr.Msg = fmt.Sprintf("interpreter fault: %v @ %s", r, shortStack())
+				pr.Msg = fmt.Sprintf("interpreter fault: %v @ %s [%s]", r, shortStack(), i.lastFault)
 			}
 		}
 		if i.sched != nil {
@@ -585,8 +585,9 @@ func (i *interpreter) callPkgInit(fn *ssa.Function) {
 				}
 			}
 			if i.cfg.Verbose {
-				fmt.Fprintf(os.Stderr, "gosym: init of %s abandoned: %v\n", pkgPath, r)
+				fmt.Fprintf(os.Stderr, "gosym: init of %s abandoned: %v [%s]\n", pkgPath, r, i.lastFault)
 			}
+			i.lastFaultVal = nil
 		}
 	}()
 	callSSA(i, nil, token.NoPos, fn, nil, nil)
@@ -610,7 +611,7 @@ func (i *interpreter) poisonPackage(initFn *ssa.Function, why string) {
 func skipInit(path string) bool {
 	switch path {
 	case "runtime", "internal/cpu", "internal/godebug", "runtime/debug", "runtime/pprof", "runtime/trace",
-		"internal/poll", "net", "net/http", "crypto/tls", "crypto/x509", "os/signal", "os/exec", "os/user",
+		"net", "crypto/tls", "crypto/x509", "os/signal", "os/exec", "os/user",
 		"testing", "flag", "log", "expvar", "internal/testlog", "crypto/internal/fips140/check",
 		"golang.org/x/sys/cpu", "internal/syscall/unix", "vendor/golang.org/x/sys/cpu":
 		return true
@@ -674,4 +675,13 @@ func (i *interpreter) pcSample() string {
 		parts = append(parts, s)
 	}
 	return strings.Join(parts, " ∧ ")
+}
+
+// stackString renders the innermost interpreted frames (for diagnostics).
+func (i *interpreter) stackString() string {
+	var parts []string
+	for k := len(i.callStack) - 1; k >= 0 && len(parts) < 6; k-- {
+		parts = append(parts, i.callStack[k].String())
+	}
+	return strings.Join(parts, " < ")
 }
